@@ -99,9 +99,35 @@ impl C17 {
     let ws1 = ts.get(y, 0);
     let near_solstice = (jdn - ss.day).abs() <= 30 || (jdn - ws2.day).abs() <= 30 || (jdn - ws1.day).abs() <= 30;
     let s = sd_idx(c, i);
+    // a = [date index, k, read]: the two day objects are reached by stepping k days from date-k (after that day's views
+    // were read, if read == 1) instead of being constructed for the date itself
+    let stepped = case.a.len() >= 3 && case.a[1] != 0;
+    let (kstep, read_first) = if stepped { (case.a[1], case.a[2] == 1) } else { (0, false) };
+    if stepped {
+      let src = i as i64 - kstep;
+      if src < 0 || src >= NDAYS as i64 {
+        out.skip("stepping_source_outside_range");
+        return;
+      }
+      if (1729853..=1729882).contains(&c.jdn(src as usize)) {
+        out.skip("stepping_source_has_no_lunar_date_(KF-C02-hole-0024)");
+        return;
+      }
+      out.class(if read_first { "day_objects_reached_by_stepping_after_reads" } else { "day_objects_reached_by_stepping" });
+    }
     let r = guard(|| {
-      let sc = s.get_sixty_cycle_day();
-      let l = s.get_lunar_day();
+      use tyme4rs::tyme::Tyme;
+      let (sc, l) = if stepped {
+        let s0 = sd_idx(c, (i as i64 - kstep) as usize);
+        let (sc0, l0) = (s0.get_sixty_cycle_day(), s0.get_lunar_day());
+        if read_first {
+          let _ = (sc0.get_duty(), sc0.get_twelve_star(), sc0.get_twenty_eight_star(), l0.get_duty(), l0.get_twelve_star(), l0.get_six_star(), l0.get_twenty_eight_star(), l0.get_sixty_cycle(), l0.get_solar_day());
+          let _ = guard(|| (sc0.get_nine_star(), l0.get_nine_star()));
+        }
+        (sc0.next(kstep as isize), l0.next(kstep as isize))
+      } else {
+        (s.get_sixty_cycle_day(), s.get_lunar_day())
+      };
       let m28 = sc.get_twenty_eight_star();
       let l28 = l.get_twenty_eight_star();
       (
@@ -367,6 +393,15 @@ impl Prop for C17 {
     let c = cal();
     match t {
       "days" => {
+        // strided walks on fresh threads (see engine::stride_walks)
+        stride_walks(env, out, "day", env.tier.pick(1600, 48000) / nshards as u32, 7000 + shard as u64, 0, (crate::model::NDAYS as i64) - 366, 800, &|x| vec![x], &ev);
+        stride_walks(env, out, "hour", env.tier.pick(800, 24000) / nshards as u32, 7100 + shard as u64, 0, (crate::model::NDAYS as i64) - 366, 800, &|x| vec![x, (x * 5).rem_euclid(24)], &ev);
+        // day objects reached by stepping (half of them after the source day's memoised views were read)
+        {
+          let hi = NDAYS as i64 - 366;
+          let strat = (0i64..hi, prop_oneof![3 => 1i64..=3, 2 => 4i64..=45, 1 => 46i64..=400], proptest::bool::ANY, 0i64..2).prop_map(|(i, k, neg, r)| Case::ints(&[i, if neg { -k } else { k }, r]));
+          prop_run(env, out, "day", env.tier.pick(16_000, 480_000) / nshards as u32, 7200 + shard as u64, strat, &ev);
+        }
         let (ylo, yhi) = shard_range(9998, shard, nshards);
         let (ylo, yhi) = (ylo as i64 + 1, yhi as i64);
         ensure((ylo - 1).max(0), yhi + 1);
